@@ -13,6 +13,7 @@ V: seeded random cases from the raw option product are run the same way, recorde
 """
 import copy
 import json
+import os
 import re
 
 import numpy as np
@@ -257,9 +258,13 @@ def replay(ck, cases, label, x64=False):
 
 
 def gen_cases(ck, x64):
-  env = {"GEN_SEED": str(ck.seed), "GEN_X64": "1" if x64 else "0",
-         "GEN_TIER": "quick" if ck.quick else "thorough"}
-  return ck.gen("Layout_Gen", "Layout_Gen", env=env)
+  """quick: one covering array (seed VERIF_SEED); thorough: four different arrays."""
+  out = []
+  for k in range(1 if ck.quick else 4):
+    env = {"GEN_SEED": str(ck.seed if ck.quick else ck.seed * 10 + k), "GEN_X64": "1" if x64 else "0",
+           "GEN_TIER": "quick" if ck.quick else "thorough"}
+    out += ck.gen("Layout_Gen", "Layout_Gen", env=env)
+  return out
 
 
 def merge_stats(ck, name, st):
@@ -269,9 +274,11 @@ def merge_stats(ck, name, st):
 # ---------------------------------------------------------------------------
 def run(ck):
   quick = ck.quick
+  legs = os.environ.get("C07_LEGS", "MRXV")      # development aid: subset of the legs
   # ---- M ------------------------------------------------------------------------
-  ck.mc("Layout_MC", "Layout_MC" if quick else "Layout_MCT",
-        required_actions=["Construct", "InitState", "Update"], timeout=3000)
+  if "M" in legs:
+    ck.mc("Layout_MC", "Layout_MC" if quick else "Layout_MCT",
+          required_actions=["Construct", "InitState", "Update"], timeout=3000)
 
   # ---- R: x32 ---------------------------------------------------------------------
   cases = gen_cases(ck, x64=False)
@@ -284,9 +291,10 @@ def run(ck):
     raise core.MachineryError(f"vacuous replay: {j.stats}")
 
   # ---- R: x64 leg -------------------------------------------------------------------
-  cases64 = gen_cases(ck, x64=True)
-  j64, _, _ = replay(ck, cases64, "Layout_Gen replay (jax_enable_x64)", x64=True)
-  merge_stats(ck, "replay_x64", j64.stats)
+  if "X" in legs:
+    cases64 = gen_cases(ck, x64=True)
+    j64, _, _ = replay(ck, cases64, "Layout_Gen replay (jax_enable_x64)", x64=True)
+    merge_stats(ck, "replay_x64", j64.stats)
 
   # ---- binding self-tests (R) ---------------------------------------------------------
   good = [(c, jb, r) for c, jb, r in zip(cases, jobs, res)
@@ -312,7 +320,8 @@ def run(ck):
   ck.selftest("R: a layout change after an update is a violation", len(sub.violations) > 0)
 
   # ---- V ---------------------------------------------------------------------------
-  validate_random(ck)
+  if "V" in legs:
+    validate_random(ck)
 
   ck.assume("parameter trees are dicts p0..pn of ranks 0..4 with dims <= 8 (unit dims included); "
             "gradients are seeded standard normal")
